@@ -2731,23 +2731,39 @@ static void
 retransmit_all_tcp_requests_for(struct nameserver *server)
 {
 	int i = 0;
-	for (i = 0; i < server->base->n_req_heads; ++i) {
-		struct request *started_at = server->base->req_heads[i];
+	struct evdns_base *base = server->base;
+	/* First give up on the requests that have used up their attempts.
+	 * request_finished() frees the request and may promote waiting
+	 * requests into the lists, so start over after each one. */
+	for (i = 0; i < base->n_req_heads; ++i) {
+		struct request *started_at, *req;
+	again:
+		started_at = req = base->req_heads[i];
+		if (!req)
+			continue;
+		do {
+			if (req->ns == server && (req->handle->tcp_flags & DNS_QUERY_USEVC) &&
+			    req->tx_count >= base->global_max_retransmits) {
+				log(EVDNS_LOG_DEBUG, "Giving up on request %p; tx_count==%d",
+					(void *)req, req->tx_count);
+				reply_schedule_callback(req, 0, DNS_ERR_TIMEOUT, NULL);
+				request_finished(req, &REQ_HEAD(base, req->trans_id), 1);
+				goto again;
+			}
+			req = req->next;
+		} while (req != started_at);
+	}
+	/* Then send the others again; this frees nothing. */
+	for (i = 0; i < base->n_req_heads; ++i) {
+		struct request *started_at = base->req_heads[i];
 		struct request *req = started_at;
 		if (!req)
 			continue;
-
 		do {
-			if (req->ns == server && (req->handle->tcp_flags & DNS_QUERY_USEVC)) {
-				if (req->tx_count >= req->base->global_max_retransmits) {
-					log(EVDNS_LOG_DEBUG, "Giving up on request %p; tx_count==%d",
-						(void *)req, req->tx_count);
-					reply_schedule_callback(req, 0, DNS_ERR_TIMEOUT, NULL);
-					request_finished(req, &REQ_HEAD(req->base, req->trans_id), 1);
-				} else {
-					(void) evtimer_del(&req->timeout_event);
-					evdns_request_transmit(req);
-				}
+			if (req->ns == server && (req->handle->tcp_flags & DNS_QUERY_USEVC) &&
+			    req->tx_count < base->global_max_retransmits) {
+				(void) evtimer_del(&req->timeout_event);
+				evdns_request_transmit(req);
 			}
 			req = req->next;
 		} while (req != started_at);
